@@ -120,7 +120,7 @@ theorem C04_reject_linkOK (cwd : Str) (allow : List Str) (priv : Bool) (dst : St
     (hv : unpackLinkOK cwd allow dst ln e.link = false) :
     unpackEntry cwd allow priv dst st e body be = ({ fs := fs1, dirs := st.dirs }, some .illegal) := by
   unfold unpackEntry
-  simp [hn, hi, hm, hs, hrel, hv]
+  simp [hn, hi, Entry.not_typeX_of_symlink hs, hm, hs, hrel, hv]
 
 /-- what `validSymlink` refuses, the link test refuses -/
 theorem C04_linkOK_false_of_validSymlink_false {cwd : Str} {allow : List Str} {dst ln t : Str}
@@ -256,6 +256,7 @@ theorem C04_created_link_relative (cwd : Str) (priv : Bool) (dst : Str)
   · cases h
   · rename_i path hi
     simp only at h
+    rw [if_neg (by rw [Entry.not_typeX_of_symlink hs]; simp)] at h
     split at h
     · cases h
     · rename_i fs1 hm
@@ -291,7 +292,7 @@ theorem C04_abs_target_refused (cwd : Str) (priv : Bool) (dst : Str) (st : UStat
   · exact fun hi => unpackEntry_info_none cwd [] priv dst st e body be hn hi
   · intro path fs1 hi hm
     cases hrel : pathRel dst path with
-    | none => unfold unpackEntry; simp [hn, hi, hm, hs, hrel]
+    | none => unfold unpackEntry; simp [hn, hi, Entry.not_typeX_of_symlink hs, hm, hs, hrel]
     | some ln =>
       exact C04_reject_linkOK cwd [] priv dst st e body be path ln fs1 hn hi hm hs hrel
         (unpackLinkOK_nil_abs cwd dst ln ha)
